@@ -6,7 +6,7 @@ use chemical_elements::{
 };
 use serde_json::{json, Value};
 
-pub const ALPHABET: [char; 16] = ['C', 'H', 'l', 'c', 'A', '1', '3', '0', '[', ']', 'é', '𝟚', ' ', '+', '*', 'e'];
+pub const ALPHABET: [char; 19] = ['C', 'H', 'l', 'c', 'A', '1', '3', '0', '[', ']', 'é', '𝟚', ' ', '+', '*', 'e', 'U', 'u', 'o'];
 
 fn parse_out(r: Result<Result<ElementSpecification<'static>, ElementSpecificationParsingError>, String>) -> Value {
     match r {
@@ -35,13 +35,13 @@ pub fn run(args: &[String]) {
     let seed: u64 = args.get(1).and_then(|s| s.parse().ok()).unwrap_or(0);
     let n: usize = args.get(2).and_then(|s| s.parse().ok()).unwrap_or(3);
     let key = |s: &str, i: u16| ElementSpecification::new(&PERIODIC_TABLE[s], i);
-    let pairs = vec![(key("C", 0), 2), (key("C", 13), 5), (key("H", 0), 7), (key("Cl", 37), 3), (key("Ac", 0), 4)];
+    let pairs = vec![(key("C", 0), 2), (key("C", 13), 5), (key("H", 0), 7), (key("Cl", 37), 3), (key("Ac", 0), 4), (key("Uuo", 0), 6), (key("H+", 0), 8)];
     let v: ChemicalCompositionVec = pairs.clone().into_iter().collect();
     let m: ChemicalCompositionMap = pairs.clone().into_iter().collect();
     let ev: ChemicalComposition = pairs.clone().into();
     let em: ChemicalComposition = ev.clone().into_map();
     let comps = (v, m, ev, em);
-    println!("{}", json!({"comp": [["C", 0, 2], ["C", 13, 5], ["H", 0, 7], ["Cl", 37, 3], ["Ac", 0, 4]]}));
+    println!("{}", json!({"comp": [["C", 0, 2], ["C", 13, 5], ["H", 0, 7], ["Cl", 37, 3], ["Ac", 0, 4], ["Uuo", 0, 6], ["H+", 0, 8]]}));
     match mode {
         "pairs" => {
             // every (element, isotope-or-none) pair of the table: render, parse back, serde round trip
